@@ -315,7 +315,7 @@ pub fn streams() -> Vec<Stream> {
 pub fn def() -> PropertyDef {
     PropertyDef {
         id: "C06",
-        rule: "strings = tape-driven token mutants (delete/duplicate/swap/replace/insert/splice/transplant/literal-edge/whitespace/char/ident/truncate, 1-4 per string) of five seed pools (programs: shipped examples + generated well-typed programs; witness/param modules; JSON witness/argument files; value and type expressions; raw random strings), each fed to every text entry point (TemplateProgram::new -> instantiate(debug off/on, shaped and empty arguments) -> satisfy(shaped and ill-typed witness maps); WitnessValues/Arguments::parse_from_str; serde_json::from_str::<WitnessValues|Arguments>; ResolvedType::parse_from_str; Value::parse_from_str at 40 types) inside child processes with an 8 MiB stack; oracle = no panic, no abort, no stack overflow. evaluations = entry-point calls. Non-trivial = the string is not a member of its seed pool and at least one entry point got past the grammar (so more than pest is exercised); distinct by FNV digest of the string. Excluded by the guards of DESIGN §3 (counted in coverage.excluded): nesting depth > 12, length > 64 KiB, declared array/list sizes in (4096, 2^64).",
+        rule: "strings = tape-driven token mutants (delete/duplicate/swap/replace/insert/splice/transplant/literal-edge/whitespace/char/ident/truncate, 1-4 per string) of five seed pools (programs: shipped examples + generated well-typed programs; witness/param modules; JSON witness/argument files; value and type expressions; raw random strings), each fed to every text entry point (TemplateProgram::new -> instantiate(debug off/on, shaped and empty arguments) -> satisfy(shaped and ill-typed witness maps); WitnessValues/Arguments::parse_from_str; serde_json::from_str::<WitnessValues|Arguments>; ResolvedType::parse_from_str; Value::parse_from_str at 45 types) inside child processes with an 8 MiB stack; oracle = no panic, no abort, no stack overflow. evaluations = entry-point calls. Non-trivial = the string is not a member of its seed pool and at least one entry point got past the grammar (so more than pest is exercised); distinct by FNV digest of the string. Excluded by the guards of DESIGN §3 (counted in coverage.excluded): nesting depth > 12, length > 64 KiB, declared array/list sizes in (4096, 2^64).",
         assumptions: &[
             "a panic is observed through catch_unwind in the harness; aborts and stack overflows through the exit signal of the child process",
             "absence of panics is never established by search; inputs outside the three resource guards are not explored",
